@@ -30,8 +30,12 @@ CLAIMED = {
              "and, for strip_blackboxes, the exact characterisation `strip_blackboxes_passes_lint_iff` (the stripped circuit "
              "passes lint iff every dotted node is a pin and no ignored output pin is loaded; the unconditional statement is "
              "refuted by `strip_blackboxes_passes_lint_false`, whose first counterexample replays on the real code: known "
-             "finding K47). For the remaining producers (composition calls, sequential_unroll, the readers) the second half "
-             "is checked by running the real functions and is a search, not a theorem.",
+             "finding K47); further `sequential_unroll_passes_lint` (flop outputs other than q unloaded: K41), "
+             "`add_subcircuit_passes_lint(_general)` (every child input driven), `fill_blackbox_passes_lint_iff` (exactly when "
+             "the dotted nodes named after the instance are its pins and no other instance shares them; the plain statement "
+             "is refuted), `bench_build_passes_lint`, `bench_roundtrip_passes_lint`, `verilog_readers_pass_lint` (both Verilog "
+             "readers on restricted netlists without floating wires / open input pins). Every producer is also run and linted "
+             "by the search on every run.",
         note=TRUST + " `Violates` (the documented rule list) is my reading of the docstring/property text.",
         ref="§4 C20"),
     "C16": dict(
@@ -197,15 +201,22 @@ CLAIMED = {
         ref="§4 C13"),
     "C15": dict(
         technique="Lean 4 theorems at the statement level of the bench dialect (reader's API calls, writer's emitted statements) "
-                  "+ a Lean backtracking regex engine run on the regular expressions extracted from io.py, differential-tested "
-                  "against CPython re + exact reader/writer correspondence + simulation search",
+                  "and at the character level (a Lean backtracking regex engine running the regular expressions extracted from "
+                  "io.py on the writer's text), engine differential-tested against CPython re + exact reader/writer "
+                  "correspondence + simulation search",
         text="Proof: `build_sem` (for every well-formed netlist, in any line order: exactly the declared inputs/outputs, every "
              "gate net computes its gate function of the nets it names, every DFF is a dff blackbox between its D and Q nets), "
              "`roundtrip` (reading back what the writer emits refines the original on every node, constants included), "
-             "`roundtrip_exact`, `write_rejects`. PARTIAL: the character level — that the four regular expressions extract "
-             "exactly those statements from a text, and the rendering of statements — is not a theorem: the regexes are "
-             "extracted from io.py on every run (`tables_regex` by rfl), executed by the Lean engine and compared with "
-             "CPython's `re` and with bench_to_circuit/circuit_to_bench on generated texts (blanks, tabs, case, line order).",
+             "`roundtrip_exact`, `write_rejects`. Character level: `parse_write` (for every writable circuit whose node names "
+             "are identifiers of the dialect: the comment stripping and the four regular-expression passes of the reader, run "
+             "by the regex engine on the text the writer emits, extract exactly the writer's statements — every iteration "
+             "order), `roundtrip_text` (hence reading back the TEXT gives the same inputs/outputs and a circuit that refines "
+             "the original), `parse_canonical` (a well-formed netlist written one statement per line in canonical layout, "
+             "lines in any order, DFF lines included, is parsed into exactly its statements). These are theorems about "
+             "CG/Regex.lean running the patterns extracted from io.py (`tables_regex` by rfl; the pattern parser is total and "
+             "kernel-evaluated). PARTIAL: arbitrary layouts (extra blanks, tabs, lower-case keywords, several statements per "
+             "line) and the engine-vs-CPython-`re` tie are differential: engine and reader/writer are compared with `re` and "
+             "with bench_to_circuit/circuit_to_bench on generated texts every run.",
         note=TRUST + " CPython `re` is modelled by CG/Regex.lean.",
         ref="§4 C15"),
     "C17": dict(
@@ -282,8 +293,9 @@ CLAIMED = {
              "statement list the writer produced) and `roundtrip_text` (`parseNetlist (write c)` returns the same graph); "
              "their two extra hypotheses (at least one port; no pin-less blackbox) are shown necessary by closed "
              "counterexamples — the writer emits `module m ();` / `ff u ();`, which the grammar rejects. "
-             "Partial: the refinement theorem for the assign style with blackboxes, and escaped identifiers, are covered by "
-             "the correspondence/search only; the tie between the model's lexer/parser and lark, and the module-extraction "
+             "`roundtrip_behavioral_bb` extends the assign-style theorem to circuits WITH blackbox instances (same registry, "
+             "every pin node present with its type, fan-in and fan-out, refinement in both directions). "
+             "Partial: escaped identifiers are covered by the correspondence/search only; the tie between the model's lexer/parser and lark, and the module-extraction "
              "regular expression, are differential.",
         note=TRUST + " `Writable`: lint-clean, plain identifiers not colliding with tie_0/tie_1/tie_x, registry and pin nodes agree.",
         ref="§4 C03"),
